@@ -153,6 +153,16 @@ func rulesKeyClash(rs []Rule) bool {
 	return false
 }
 
+// KeyClash: does some rule of some policy list one network both as cidr and as except?
+func KeyClash(ps []NetPol) bool {
+	for _, p := range ps {
+		if rulesKeyClash(p.Ingress) || rulesKeyClash(p.Egress) {
+			return true
+		}
+	}
+	return false
+}
+
 // UpdateStep is one object change with the event it produces.
 type UpdateStep struct {
 	Kind string // updpol delpol addpol updpod
@@ -267,6 +277,9 @@ func UpdateOps(from string, worlds []*WorldDef, steps []UpdateStep) []string {
 
 // GenUpdateHistory renders an update scenario as a history (the C15 op language; `check` = final comparison).
 func GenUpdateHistory(rg *rand.Rand, c *Cluster, ps []NetPol) []string {
+	if OverLimit(ps) {
+		return nil // the multiport defect (known finding) is judged in the from-empty stream only
+	}
 	for _, p := range ps {
 		// the strict ipset keeps ONE element per key: a rule that lists a network both as cidr and as except is
 		// outside the compared fragment (the set flips on every sync; see report)
@@ -363,7 +376,7 @@ func RunC16History(e *hx.Env, rep *hx.Report, bt *Batch, name string, hist []str
 		return Flows(&w.C, w.PS)
 	}
 	sb := NewStrictBackend()
-	m := NewManager(sb.Backend, LocalNode, nil)
+	m := NewFreshManager(sb.Backend, LocalNode)
 	staleIPs := map[string]bool{}
 	violate := func(sig, what string) {
 		rep.Hit("violation:" + sig)
@@ -376,7 +389,7 @@ func RunC16History(e *hx.Env, rep *hx.Report, bt *Batch, name string, hist []str
 	}
 	fresh := func(w *WorldDef) (*Dump, error) {
 		fb := NewStrictBackend()
-		fm := NewManager(fb.Backend, LocalNode, nil)
+		fm := NewFreshManager(fb.Backend, LocalNode)
 		fm.World.Set(&w.C, w.PS)
 		fm.FullSync()
 		return TakeDump(fb.Backend)
@@ -547,6 +560,9 @@ func roleHits(rep *hx.Report, old, cur *WorldDef, q *Pod) {
 }
 
 func deliver(m *Manager, st UpdateStep, prev, cur *WorldDef) {
+	if st.Kind == "addpol" || ((st.Kind == "updpol" || st.Kind == "delpol") && len(cur.PS) > 0) {
+		m.SeenPolicy = true // AddPolicy / syncNetworkPolices start the pod informer factory
+	}
 	nsname := strings.SplitN(st.Key, "/", 2)
 	findPol := func(d *WorldDef) *NetPol {
 		for i := range d.PS {
